@@ -40,6 +40,7 @@ struct vg_task {
         int children_outstanding;
         int implicit_index;     /* -1: explicit task */
         int single_count;
+        int loop_count;         /* work-sharing loops this implicit task has entered */
         struct vg_task* next_all;
 };
 
@@ -53,6 +54,9 @@ struct vg_team {
         struct vg_strand* master;
         struct vg_team* outer;
         struct vg_team* next_all;
+        int lset;               /* work-sharing loop with a dynamic/guided/runtime schedule (not used by kalign today) */
+        int loop_id;            /* number of such loops the team has started */
+        long lnext, lend, lincr, lchunk;
 };
 
 struct vg_worker {
@@ -542,6 +546,8 @@ static void run_serial_region(void (*fn)(void*), void* data)
         fn(data);
 }
 
+static struct { int set; long next, end, incr, chunk; } g_pending_loop, g_serial_loop;
+
 void GOMP_parallel(void (*fn)(void*), void* data, unsigned num_threads, unsigned flags)
 {
         struct vg_team* team;
@@ -551,7 +557,10 @@ void GOMP_parallel(void (*fn)(void*), void* data, unsigned num_threads, unsigned
         int N, i;
         (void)flags;
         if(!g_on || !me){
+                g_serial_loop = g_pending_loop;
+                g_pending_loop.set = 0;
                 run_serial_region(fn, data);
+                g_serial_loop.set = 0;
                 return;
         }
         if(top_team(me)){
@@ -567,6 +576,15 @@ void GOMP_parallel(void (*fn)(void*), void* data, unsigned num_threads, unsigned
         }
         team = calloc(1, sizeof(*team));
         team->N = N;
+        if(g_pending_loop.set){
+                team->lset = 1;
+                team->lnext = g_pending_loop.next;
+                team->lend = g_pending_loop.end;
+                team->lincr = g_pending_loop.incr;
+                team->lchunk = g_pending_loop.chunk;
+                team->loop_id = 1 << 20;        /* combined parallel-loop: no member calls *_start */
+                g_pending_loop.set = 0;
+        }
         team->master = me;
         team->outer = top_team(me);
         team->next_all = g_teams;
@@ -709,6 +727,170 @@ void GOMP_taskyield(void)
         }
 }
 
+/* taskloop (not used by kalign today; a realistic edit might introduce it): the iteration space is cut into chunks, one deferred
+   task per chunk, followed - unless nogroup is given - by a wait for the tasks created (implemented as a taskwait: waits for every
+   child of the encountering task, which is at least what the implicit taskgroup waits for here) */
+#define VG_TASK_FLAG_UP (1 << 8)
+#define VG_TASK_FLAG_GRAINSIZE (1 << 9)
+#define VG_TASK_FLAG_IF (1 << 10)
+#define VG_TASK_FLAG_NOGROUP (1 << 11)
+void GOMP_taskloop(void (*fn)(void*), void* data, void (*cpyfn)(void*, void*), long arg_size, long arg_align, unsigned flags,
+                   unsigned long num_tasks, int priority, long start, long end, long step)
+{
+        unsigned long n, ntasks, k, each, extra;
+        long s;
+        char* raw;
+        char* buf;
+        (void)priority;
+        if(flags & VG_TASK_FLAG_UP){
+                if(end <= start){
+                        return;
+                }
+                n = (unsigned long)((end - start + step - 1) / step);
+        }else{
+                if(end >= start){
+                        return;
+                }
+                n = (unsigned long)((start - end - step - 1) / -step);
+        }
+        if(arg_align < 1){
+                arg_align = 1;
+        }
+        if(flags & VG_TASK_FLAG_GRAINSIZE){
+                ntasks = num_tasks ? n / num_tasks : n;
+        }else{
+                ntasks = num_tasks ? num_tasks : (unsigned long)omp_get_num_threads();
+        }
+        if(ntasks < 1){
+                ntasks = 1;
+        }
+        if(ntasks > n){
+                ntasks = n;
+        }
+        each = n / ntasks;
+        extra = n % ntasks;
+        raw = malloc((size_t)arg_size + (size_t)arg_align + 16);
+        buf = (char*)(((uintptr_t)raw + (uintptr_t)arg_align - 1) / (uintptr_t)arg_align * (uintptr_t)arg_align);
+        s = start;
+        for(k = 0; k < ntasks; k++){
+                long cnt = (long)(each + (k < extra ? 1 : 0));
+                long e = s + cnt * step;
+                if(cpyfn){
+                        cpyfn(buf, data);
+                }else if(arg_size){
+                        memcpy(buf, data, (size_t)arg_size);
+                }
+                ((long*)buf)[0] = s;
+                ((long*)buf)[1] = e;
+                GOMP_task(fn, buf, NULL, arg_size, arg_align, true, 0, NULL, 0, NULL);
+                s = e;
+        }
+        free(raw);
+        if(!(flags & VG_TASK_FLAG_NOGROUP)){
+                GOMP_taskwait();
+        }
+}
+
+
+/* Loops with a dynamic / guided / runtime schedule: one shared cursor per team; taking the next chunk is a scheduling point
+   (any member may take any chunk).  kalign's only work-sharing loop is static (no runtime call); these exist so that an edit
+   which changes a schedule clause still links and is explored. */
+static bool vg_loop_next(long* istart, long* iend)
+{
+        struct vg_team* team = (g_on && self) ? top_team(self) : NULL;
+        long n, e;
+        if(team && team->lset){
+                if(team->N > 1){
+                        vg_point(VG_KIND_YIELD);
+                }
+                n = team->lnext;
+                if(team->lincr > 0 ? n >= team->lend : n <= team->lend){
+                        return false;
+                }
+                e = n + team->lchunk * team->lincr;
+                if(team->lincr > 0 ? e > team->lend : e < team->lend){
+                        e = team->lend;
+                }
+                team->lnext = e;
+                *istart = n;
+                *iend = e;
+                return true;
+        }
+        if(g_serial_loop.set){
+                n = g_serial_loop.next;
+                if(g_serial_loop.incr > 0 ? n >= g_serial_loop.end : n <= g_serial_loop.end){
+                        return false;
+                }
+                *istart = n;
+                *iend = g_serial_loop.end;
+                g_serial_loop.next = g_serial_loop.end;
+                return true;
+        }
+        return false;
+}
+
+static void vg_parallel_loop(void (*fn)(void*), void* data, unsigned num_threads, long start, long end, long incr, long chunk, unsigned flags)
+{
+        g_pending_loop.set = 1;
+        g_pending_loop.next = start;
+        g_pending_loop.end = end;
+        g_pending_loop.incr = incr ? incr : 1;
+        g_pending_loop.chunk = chunk > 0 ? chunk : 1;
+        GOMP_parallel(fn, data, num_threads, flags);
+}
+
+void GOMP_parallel_loop_dynamic(void (*fn)(void*), void* d, unsigned nt, long s, long e, long i, long c, unsigned f) { vg_parallel_loop(fn, d, nt, s, e, i, c, f); }
+void GOMP_parallel_loop_nonmonotonic_dynamic(void (*fn)(void*), void* d, unsigned nt, long s, long e, long i, long c, unsigned f) { vg_parallel_loop(fn, d, nt, s, e, i, c, f); }
+void GOMP_parallel_loop_guided(void (*fn)(void*), void* d, unsigned nt, long s, long e, long i, long c, unsigned f) { vg_parallel_loop(fn, d, nt, s, e, i, c, f); }
+void GOMP_parallel_loop_nonmonotonic_guided(void (*fn)(void*), void* d, unsigned nt, long s, long e, long i, long c, unsigned f) { vg_parallel_loop(fn, d, nt, s, e, i, c, f); }
+void GOMP_parallel_loop_runtime(void (*fn)(void*), void* d, unsigned nt, long s, long e, long i, unsigned f) { vg_parallel_loop(fn, d, nt, s, e, i, 1, f); }
+void GOMP_parallel_loop_nonmonotonic_runtime(void (*fn)(void*), void* d, unsigned nt, long s, long e, long i, unsigned f) { vg_parallel_loop(fn, d, nt, s, e, i, 1, f); }
+void GOMP_parallel_loop_maybe_nonmonotonic_runtime(void (*fn)(void*), void* d, unsigned nt, long s, long e, long i, unsigned f) { vg_parallel_loop(fn, d, nt, s, e, i, 1, f); }
+bool GOMP_loop_dynamic_next(long* s, long* e) { return vg_loop_next(s, e); }
+bool GOMP_loop_nonmonotonic_dynamic_next(long* s, long* e) { return vg_loop_next(s, e); }
+bool GOMP_loop_guided_next(long* s, long* e) { return vg_loop_next(s, e); }
+bool GOMP_loop_nonmonotonic_guided_next(long* s, long* e) { return vg_loop_next(s, e); }
+bool GOMP_loop_runtime_next(long* s, long* e) { return vg_loop_next(s, e); }
+bool GOMP_loop_nonmonotonic_runtime_next(long* s, long* e) { return vg_loop_next(s, e); }
+bool GOMP_loop_maybe_nonmonotonic_runtime_next(long* s, long* e) { return vg_loop_next(s, e); }
+void GOMP_loop_end_nowait(void) {}
+
+/* the non-combined form: every member calls GOMP_loop_*_start; the first to arrive at the k-th loop of the region sets it up */
+static bool vg_loop_start(long start, long end, long incr, long chunk, long* istart, long* iend)
+{
+        struct vg_team* team = (g_on && self) ? top_team(self) : NULL;
+        struct vg_task* it;
+        if(!team){
+                g_serial_loop.set = 1;
+                g_serial_loop.next = start;
+                g_serial_loop.end = end;
+                g_serial_loop.incr = incr ? incr : 1;
+                g_serial_loop.chunk = 1;
+                return vg_loop_next(istart, iend);
+        }
+        for(it = self->cur; it && it->implicit_index < 0; it = it->parent){
+        }
+        if(it){
+                it->loop_count++;
+                if(it->loop_count > team->loop_id){
+                        team->loop_id = it->loop_count;
+                        team->lset = 1;
+                        team->lnext = start;
+                        team->lend = end;
+                        team->lincr = incr ? incr : 1;
+                        team->lchunk = chunk > 0 ? chunk : 1;
+                }
+        }
+        return vg_loop_next(istart, iend);
+}
+bool GOMP_loop_dynamic_start(long s, long e, long i, long c, long* is, long* ie) { return vg_loop_start(s, e, i, c, is, ie); }
+bool GOMP_loop_nonmonotonic_dynamic_start(long s, long e, long i, long c, long* is, long* ie) { return vg_loop_start(s, e, i, c, is, ie); }
+bool GOMP_loop_guided_start(long s, long e, long i, long c, long* is, long* ie) { return vg_loop_start(s, e, i, c, is, ie); }
+bool GOMP_loop_nonmonotonic_guided_start(long s, long e, long i, long c, long* is, long* ie) { return vg_loop_start(s, e, i, c, is, ie); }
+bool GOMP_loop_runtime_start(long s, long e, long i, long* is, long* ie) { return vg_loop_start(s, e, i, 1, is, ie); }
+bool GOMP_loop_nonmonotonic_runtime_start(long s, long e, long i, long* is, long* ie) { return vg_loop_start(s, e, i, 1, is, ie); }
+bool GOMP_loop_maybe_nonmonotonic_runtime_start(long s, long e, long i, long* is, long* ie) { return vg_loop_start(s, e, i, 1, is, ie); }
+
 /* Entry points kalign does not use today but a realistic edit might introduce. */
 
 void GOMP_barrier(void)
@@ -737,6 +919,8 @@ void GOMP_barrier(void)
                 vg_point(VG_KIND_BLOCK);
         }
 }
+
+void GOMP_loop_end(void) { GOMP_barrier(); }
 
 static void lock_acquire(int k)
 {
